@@ -18,12 +18,14 @@ META = {
                    "operation's corners in order with zone and counts, boundary/defaultPatch/mergePatchPairs/faces/geometry "
                    "contain exactly what was declared, every quad lies on the geometric side that was addressed, every "
                    "index exists, every quad is a side of some block, projected geometries are defined, and the VTK lists "
-                   "the same points and hexahedra.",
+                   "the same points and hexahedra. Sphere shapes (plain, translated by a symbolic vector, copied, two in one "
+                   "mesh) are written too: one searchableSphere per shape, every projected label defined, centred at the "
+                   "shape's centre with its radius, and the corners of every projected quad on that sphere.",
     "bounds": {"operations": "3 boxes in a row, symbolic origin (3 reals) and extents (5 reals)", "selectors": "patch side "
                "per box (6x6), projected side (6) x edges x points, deleted operation (none/0/1/2), patch-modification "
                "sequence (5 variants)", "counts": "count-only chops"},
     "outside": ["the 8-decimal text rendering of coordinates (the number formatter emits tokens in symbolic mode; the "
-                "concrete replay parses the real text)", "sphere auto-geometry (C11/C09 territory)", "scripts longer than "
+                "concrete replay parses the real text)", "scripts longer than "
                 "the templates"],
     "assumptions": [],
     "must_reach": ["written"],
@@ -297,6 +299,94 @@ def run_delete_modify(sx):
     return "written"
 
 
+SPHERE_VARIANTS = ["plain", "translated", "copy-only", "original+copy", "two-spheres"]
+
+
+def _sphere(cls):
+    s = cls([0.5, -1, 0.25], [1.5, -1, 0.25], [0, 0, 1])
+    s.chop_axial(count=2)
+    s.chop_radial(count=3)
+    s.chop_tangential(count=4)
+    return s
+
+
+def run_sphere(sx, cls_name):
+    """auto-geometry of sphere shapes: every geometry a built-in shape projects to is defined, and it is that shape's sphere"""
+    cls = getattr(cb, cls_name)
+    d = sx.vec(sx.real("dx", -5, 5), sx.real("dy", -5, 5), sx.real("dz", -5, 5))
+    variant = SPHERE_VARIANTS[sx.choice("variant", len(SPHERE_VARIANTS))]
+    c0 = sx.vec(0.5, -1, 0.25)
+    first = _sphere(cls)
+    if variant == "plain":
+        shapes, centres = [first], [c0]
+    elif variant == "translated":
+        shapes, centres = [first.translate(d)], [c0 + d]
+    elif variant == "copy-only":
+        shapes, centres = [first.copy().translate(d)], [c0 + d]
+    elif variant == "original+copy":
+        # (both moved by the same symbolic vector: the mutual distances that vertex merging looks at stay concrete)
+        second = first.copy().translate([7, 0.5, 0])
+        shapes, centres = [first.translate(d), second.translate(d)], [c0 + d, c0 + d + sx.vec(7, 0.5, 0)]
+    else:
+        second = _sphere(cls).translate([7, 0.5, 0])
+        shapes, centres = [first.translate(d), second.translate(d)], [c0 + d, c0 + d + sx.vec(7, 0.5, 0)]
+    mesh = cb.Mesh()
+    for s in shapes:
+        s.set_outer_patch("ball")
+        mesh.add(s)
+    tag = f"{cls_name} ({variant})"
+    sx.reach("written")
+    try:
+        parsed, text, vtk = _write(sx, mesh, vtk=False)
+    except cb.base.exceptions.UndefinedGradingsError as e:
+        # the same chops define every block of the untransformed shape: a rigid motion or a copy must not un-define them
+        sx.prove(False, f"{tag}: the script is well-posed (its untransformed twin is written) but write() raised "
+                 f"{type(e).__name__}", "C06:sphere:written")
+        return "not written"
+    geo = parsed["geometry"]
+    sx.prove(len(geo) == len(shapes) and all(e and e[0] == "type searchableSphere" for e in geo.values()),
+             f"{tag}: one searchableSphere geometry per sphere shape", "C06:sphere:geometry-count", info={"written": sorted(geo)})
+    used = {f["geometry"] for f in parsed["faces"]} | {g for e in parsed["edges"] if e["kind"] == "project" for g in e["data"]} \
+        | {g for v in parsed["vertices"] for g in v["project"]}
+    sx.prove(used <= set(geo), f"{tag}: every geometry a sphere shape projects to is defined", "C06:sphere:geometry-defined",
+             info={"used": sorted(used), "defined": sorted(geo)})
+    sx.prove(len(used) == len(shapes), f"{tag}: each sphere shape projects to its own geometry", "C06:sphere:geometry-own",
+             info={"used": sorted(used)})
+    n_ops = len(shapes[0].operations)
+    n_shell = len(shapes[0].shell)
+    sx.prove(len(parsed["faces"]) == n_shell * len(shapes), f"{tag}: one projected face per shell operation", "C06:sphere:faces-count",
+             info={"written": len(parsed["faces"]), "shell": n_shell})
+    # what each defined geometry says, and where the things projected to it are
+    spheres = {}
+    for name, entries in geo.items():
+        ent = dict(e.split(None, 1) for e in entries)
+        if "centre" in ent and "radius" in ent:
+            spheres[name] = (bmd._vec(sx, ent["centre"].strip("()")), bmd.num(sx, ent["radius"]), bmd._vec(sx, ent["origin"].strip("()")))
+    sx.prove(len(spheres) == len(geo), f"{tag}: geometry entries have centre, origin and radius", "C06:sphere:geometry-entries")
+    conds, match = [], []
+    for (c, r, o) in spheres.values():
+        match.append(sx.any([sx.all([sx.close(c[i], cc[i], 1e-7) for i in range(3)] + [sx.close(o[i], cc[i], 1e-7) for i in range(3)])
+                             for cc in centres]))
+        conds.append(sx.close(r, 1.0, 1e-7))
+    sx.prove(sx.all(match), f"{tag}: every geometry is centred where a sphere shape is", "C06:sphere:centre")
+    sx.prove(sx.all(conds), f"{tag}: every geometry has the shape's radius", "C06:sphere:radius")
+    on = []
+    for fc in parsed["faces"]:
+        if fc["geometry"] in spheres:
+            c, r, _ = spheres[fc["geometry"]]
+            for i in fc["quad"]:
+                pp = _pos(parsed, i)
+                dist2 = sum(((pp[a] - c[a]) * (pp[a] - c[a]) for a in range(3)), sx.const(0))
+                on.append(sx.close(dist2, r * r, 1e-6))
+    sx.prove(sx.all(on), f"{tag}: the corners of every projected quad lie on the geometry it is projected to", "C06:sphere:on-surface")
+    sx.prove(all(0 <= i < len(parsed["vertices"]) for b in parsed["blocks"] for i in b["indexes"])
+             and len(parsed["blocks"]) == n_ops * len(shapes), f"{tag}: blocks and indices", "C06:sphere:blocks")
+    quads = {tuple(sorted(q)) for q in parsed["boundary"].get("ball", {"faces": []})["faces"]}
+    proj = {tuple(sorted(fc["quad"])) for fc in parsed["faces"]}
+    sx.prove(quads == proj, f"{tag}: the outer patch consists of exactly the projected quads", "C06:sphere:outer-patch")
+    return "written"
+
+
 def jobs(tier, seed):
     js = [{"name": "patches+zones+default+merge+settings", "fn": "run_patches"},
           {"name": "delete+modify_patch", "fn": "run_delete_modify"}]
@@ -304,6 +394,9 @@ def jobs(tier, seed):
         for points in (False, True):
             js.append({"name": f"project_side|edges={edges}|points={points}", "fn": "run_project",
                        "params": {"edges": edges, "points": points}})
+    for cls_name in (["Hemisphere"] if tier == "quick" else ["Hemisphere", "EighthSphere", "QuarterSphere"]):
+        if hasattr(cb, cls_name):
+            js.append({"name": f"sphere|{cls_name}", "fn": "run_sphere", "params": {"cls_name": cls_name}})
     for j in js:
         j["budget_s"] = 280 if tier == "quick" else 1500
     return js
